@@ -58,6 +58,77 @@ class VFS:
     def abs(self, s: str) -> str:
         return posixpath.normpath(s if s.startswith("/") else posixpath.join(self.cwd, s))
 
+    # ---- modifications (every one is appended to self.ops: the history a crash can cut short)
+    def _ops(self):
+        return self.__dict__.setdefault("ops", [])
+
+    def write(self, path: str, data, mode: str = "w", node=None):
+        a = self.abs(path)
+        d, n = posixpath.split(a)
+        if a in self.tree:
+            raise PyRaise("IsADirectoryError", node)
+        if d not in self.tree:
+            raise PyRaise("FileNotFoundError", node)
+        if "x" in mode and n in self.tree[d][1]:
+            raise PyRaise("FileExistsError", node)
+        if not isinstance(data, (str, bytes)):
+            raise Unknown(f"write of a symbolic value to {a}")
+        if n not in self.tree[d][1]:
+            self.tree[d] = (self.tree[d][0], list(self.tree[d][1]) + [n])
+        store = self.bytes if isinstance(data, bytes) else self.texts
+        old = store.get(a, "" if isinstance(data, str) else b"") if "a" in mode else ("" if isinstance(data, str) else b"")
+        store[a] = old + data
+        self._ops().append(("write", a, mode, data))
+
+    def mkdir(self, path: str, parents=False, exist_ok=False, node=None):
+        a = self.abs(path)
+        d, n = posixpath.split(a)
+        if a in self.tree or self.is_file(a):
+            if exist_ok and a in self.tree:
+                return
+            raise PyRaise("FileExistsError", node)
+        if d not in self.tree:
+            if not parents:
+                raise PyRaise("FileNotFoundError", node)
+            self.mkdir(d, True, True, node)
+        self.tree[d] = (list(self.tree[d][0]) + [n], self.tree[d][1])
+        self.tree[a] = ([], [])
+        self._ops().append(("mkdir", a))
+
+    def remove(self, path: str, missing_ok=False, node=None):
+        a = self.abs(path)
+        d, n = posixpath.split(a)
+        if not self.is_file(a):
+            if missing_ok:
+                return
+            raise PyRaise("IsADirectoryError" if a in self.tree else "FileNotFoundError", node)
+        self.tree[d] = (self.tree[d][0], [x for x in self.tree[d][1] if x != n])
+        self.texts.pop(a, None)
+        self.bytes.pop(a, None)
+        self._ops().append(("remove", a))
+
+    def rename(self, src: str, dst: str, node=None):
+        a, b = self.abs(src), self.abs(dst)
+        if not self.is_file(a):
+            raise PyRaise("FileNotFoundError", node) if a not in self.tree else Unknown("rename of a directory")
+        bd, bn = posixpath.split(b)
+        if b in self.tree:
+            raise PyRaise("IsADirectoryError", node)
+        if bd not in self.tree:
+            raise PyRaise("FileNotFoundError", node)
+        ad, an = posixpath.split(a)
+        text, data = self.texts.pop(a, None), self.bytes.pop(a, None)
+        self.tree[ad] = (self.tree[ad][0], [x for x in self.tree[ad][1] if x != an])
+        if bn not in self.tree[bd][1]:
+            self.tree[bd] = (self.tree[bd][0], list(self.tree[bd][1]) + [bn])
+        self.texts.pop(b, None)
+        self.bytes.pop(b, None)
+        if text is not None:
+            self.texts[b] = text
+        if data is not None:
+            self.bytes[b] = data
+        self._ops().append(("rename", a, b))
+
     def is_dir(self, s):
         return self.abs(s) in self.tree
 
@@ -88,7 +159,8 @@ def sval(x):
 def fs_hook(vfs: VFS):
     """hook fragment: pathlib.Path, os.path.*, os.walk on the virtual tree"""
     PATH_METHODS = {"is_relative_to", "samefile", "open", "absolute", "resolve", "relative_to", "joinpath", "is_file", "is_dir", "exists", "is_absolute", "read_text", "read_bytes",
-                    "as_posix", "__str__", "__fspath__", "with_suffix", "expanduser"}
+                    "as_posix", "__str__", "__fspath__", "with_suffix", "expanduser", "write_text", "write_bytes", "mkdir", "touch", "unlink", "rename", "replace",
+                    "with_name", "with_stem"}
     PATH_ATTRS = {"name", "suffix", "parent", "parents", "parts", "stem"}
 
     def path_attr(p: PathV, attr):
@@ -147,17 +219,52 @@ def fs_hook(vfs: VFS):
         if name in ("read_text", "read_bytes"):
             return vfs.read(FileV(s, "rb" if name == "read_bytes" else "r", kwargs.get("encoding", args[0] if args else None), kwargs.get("errors")), node)
         if name == "open":
-            return FileV(s, args[0] if args else kwargs.get("mode", "r"), kwargs.get("encoding"), kwargs.get("errors"))
+            mode = args[0] if args else kwargs.get("mode", "r")
+            fv = FileV(s, mode, kwargs.get("encoding"), kwargs.get("errors"))
+            if "w" in mode or "x" in mode:
+                vfs.write(s, b"" if "b" in mode else "", "x" if "x" in mode else "w", node)
+                fv.written = True
+            return fv
         if name in ("as_posix", "__str__", "__fspath__"):
             return s
         if name == "with_suffix":
             return PathV(posixpath.splitext(s)[0] + sval(args[0]))
+        if name == "with_name":
+            return PathV(posixpath.join(posixpath.dirname(s), sval(args[0])))
+        if name == "with_stem":
+            return PathV(posixpath.join(posixpath.dirname(s), sval(args[0]) + posixpath.splitext(s)[1]))
+        if name in ("write_text", "write_bytes"):
+            data = args[0] if args else kwargs.get("data")
+            if name == "write_text" and not isinstance(data, str) or name == "write_bytes" and not isinstance(data, bytes):
+                if isinstance(data, (str, bytes)):
+                    raise PyRaise("TypeError", node)
+                raise Unknown(f"Path.{name} of a symbolic value")
+            vfs.write(s, data, "w", node)
+            return len(data)
+        if name == "mkdir":
+            vfs.mkdir(s, bool(kwargs.get("parents", False)), bool(kwargs.get("exist_ok", False)), node)
+            return None
+        if name == "touch":
+            if vfs.is_file(s):
+                if kwargs.get("exist_ok", True) is False:
+                    raise PyRaise("FileExistsError", node)
+                return None
+            vfs.write(s, "", "w", node)
+            return None
+        if name == "unlink":
+            vfs.remove(s, bool(kwargs.get("missing_ok", args[0] if args else False)), node)
+            return None
+        if name in ("rename", "replace"):
+            vfs.rename(s, sval(args[0]), node)
+            return PathV(sval(args[0]))
         raise Unknown(f"Path.{name}")
 
     def hook(it, kind, f, args, kwargs, node, cur):
         if kind == "getattr" and isinstance(f, FileV):
-            if args in ("read", "readlines", "close", "__enter__", "__exit__", "readline"):
+            if args in ("read", "readlines", "close", "__enter__", "__exit__", "readline", "write", "flush", "writelines"):
                 return ("filem", f, args)
+            if args == "name":
+                return f.path
             raise Unknown(f"file.{args}")
         if kind == "call" and isinstance(f, tuple) and f and f[0] == "filem":
             if f[2] == "read":
@@ -168,10 +275,22 @@ def fs_hook(vfs: VFS):
                 return r.splitlines(True)
             if f[2] == "__enter__":
                 return f[1]
+            if f[2] in ("write", "writelines"):
+                data = args[0] if f[2] == "write" else "".join(args[0])
+                if not any(c in f[1].mode for c in "wax+"):
+                    raise PyRaise("UnsupportedOperation", node)
+                first = not getattr(f[1], "written", False)
+                vfs.write(f[1].path, data, ("w" if first and "a" not in f[1].mode else "a"), node)
+                f[1].written = True
+                return len(data)
             return None
         if kind == "call" and f == ("builtin", "open"):
             mode = args[1] if len(args) > 1 else kwargs.get("mode", "r")
-            return FileV(sval(args[0]), mode, kwargs.get("encoding"), kwargs.get("errors"))
+            fv = FileV(sval(args[0]), mode, kwargs.get("encoding"), kwargs.get("errors"))
+            if "w" in mode or "x" in mode:
+                vfs.write(fv.path, b"" if "b" in mode else "", "x" if "x" in mode else "w", node)     # opening truncates / creates
+                fv.written = True
+            return fv
         if kind == "getattr" and isinstance(f, PathV):
             attr = args
             if attr in PATH_ATTRS:
@@ -216,6 +335,17 @@ def fs_hook(vfs: VFS):
                 return vfs.cwd
             if name in ("os.fspath",):
                 return sval(args[0])
+            if name in ("os.mkdir", "os.makedirs"):
+                vfs.mkdir(sval(args[0]), name == "os.makedirs", bool(kwargs.get("exist_ok", False)), node)
+                return None
+            if name in ("os.remove", "os.unlink"):
+                vfs.remove(sval(args[0]), False, node)
+                return None
+            if name in ("os.rename", "os.replace", "shutil.move"):
+                vfs.rename(sval(args[0]), sval(args[1]), node)
+                return None
+            if name in ("os.fsync", "os.sync"):
+                return None
             if name in ("os.listdir",):
                 a = vfs.abs(sval(args[0]))
                 if a not in vfs.tree:
